@@ -99,14 +99,34 @@ pub fn ops(args: &[&str]) -> String {
                     Some(e) => show_eid(e),
                     None => "-".into(),
                 };
-                format!(
+                let opt = |o: Option<String>| match o {
+                    Some(x) => show_bytes(x.as_bytes()),
+                    None => "-".to_string(),
+                };
+                let mut eids = vec![b.primary.destination.clone(), b.primary.source.clone(), b.primary.report_to.clone()];
+                if let Some(e) = b.previous_node() {
+                    eids.push(e.clone());
+                }
+                let mut q = format!(
                     "CRC {} ADM {} PREV {} LTX {} TS {}",
                     show_bool(crc),
                     show_bool(b.is_administrative_record()),
                     prev,
                     show_bool(b.primary.is_lifetime_exceeded()),
                     show_bytes(b.primary.creation_timestamp.to_string().as_bytes())
-                )
+                );
+                for e in &eids {
+                    q.push_str(&format!(
+                        " E {} {} {} {} {} {}",
+                        show_bytes(e.to_string().as_bytes()),
+                        opt(e.node()),
+                        opt(e.node_id()),
+                        opt(e.service_name()),
+                        show_bool(e.is_node_id()),
+                        show_bool(e.is_non_singleton())
+                    ));
+                }
+                q
             }
             Some("SORT") => {
                 b.sort_canonicals();
